@@ -21,20 +21,30 @@ Proof.
   change "Z"%char with c_Z. rewrite E. cbn [andb]. f_equal. apply IH. exact Hr.
 Qed.
 
-Lemma z_roundtrip s : no_z s = true ->
-  replace_first z_text utc_off (replace_first utc_off z_suffix s) = s.
+Lemma replace_first_z_mid p new q :
+  no_z p = true -> replace_first z_text new (p ++ z_text ++ q) = p ++ new ++ q.
 Proof.
-  induction s as [|c r IH]; intros H; [reflexivity|].
-  cbn [replace_first]. destruct (starts_with utc_off (c :: r)) eqn:Esw.
-  - apply starts_with_split in Esw. rewrite Esw at 2.
-    change (List.length utc_off) with 6%nat.
-    generalize (skipn 6 (c :: r)). intros q. reflexivity.
+  induction p as [|c r IH]; intros H.
+  - cbn [app]. unfold z_text. cbn. reflexivity.
   - cbn [no_z forallb] in H. apply andb_true_iff in H as [Hc Hr].
     assert (E : ascii_eqb c_Z c = false).
     { destruct (ascii_eqb c_Z c) eqn:E; [|reflexivity]. apply ascii_eqb_eq in E. subst.
       rewrite ascii_eqb_refl in Hc. discriminate. }
-    cbn [replace_first]. unfold z_text at 1. cbn [S list_ascii_of_string starts_with].
+    cbn [app replace_first]. unfold z_text at 1. cbn [S list_ascii_of_string starts_with].
     change "Z"%char with c_Z. rewrite E. cbn [andb]. f_equal. apply IH. exact Hr.
+Qed.
+
+Lemma no_z_app a b : no_z (a ++ b) = true -> no_z a = true.
+Proof. unfold no_z. rewrite forallb_app. intros H. apply andb_true_iff in H. tauto. Qed.
+
+Lemma z_roundtrip s : no_z s = true -> replace_first z_text utc_off (iso_z s) = s.
+Proof.
+  intros H. rewrite z_rewrite. unfold ref_z. destruct (ends_with_off s) eqn:E.
+  - pose proof (ends_with_off_split s E) as Hs. set (p := firstn (List.length s - 6) s) in *.
+    assert (Hp : no_z p = true) by (rewrite Hs in H; eapply no_z_app; exact H).
+    pose proof (replace_first_z_mid p utc_off [] Hp) as Hr. rewrite !app_nil_r in Hr.
+    change z_suffix with z_text. rewrite Hr. symmetry. exact Hs.
+  - apply replace_first_noz. exact H.
 Qed.
 
 (* ---- sets and dicts without duplicates are rebuilt as they were ------------------------ *)
@@ -489,7 +499,9 @@ Proof.
       rewrite opt_some by (apply Hw; assumption). assumption.
   - (* TUnion *)
     inversion Hr as [| | | | | | | | | | | | | |? Hin|? t ? Hin Hok Hnn Hv| | |]; subst.
-    + exists VNone. split; [apply dump_scalar; reflexivity|]. split; [reflexivity|tauto].
+    + exists VNone. split; [apply dump_scalar; reflexivity|]. split; [|tauto].
+      cbn [load]. assert (Hex : existsb is_tnone ts = true) by (apply existsb_exists; exists TNone; split; [assumption|reflexivity]).
+      rewrite Hex. reflexivity.
     + eapply Forall_forall in IH; [|exact Hin].
       destruct (IH v Hv) as (w & Hd & Hl & Hw). exists w. split; [assumption|]. split; [|assumption].
       rewrite union_some by (apply Hw; assumption).
